@@ -482,7 +482,9 @@ class SymInt:
         return f"<sym[{self.lo},{self.hi}]>"
 
     def __format__(self, spec):
-        return "<sym>"
+        if spec and spec[-1] in "bo":
+            return format(concretize(self), spec)    # digit strings are consumed by code (Montgomery ladder): case split
+        return "<sym>"                               # decimal / hex renderings only ever feed messages
 
     def __str__(self):
         return "<sym>"
